@@ -71,6 +71,12 @@ def exchanges(ctx, n):
             b, _ = sconnp.build_response(rng, i, head_method=(tr["method"] == b"HEAD"))
             rq += a
             rs += b
+        if rng.random() < 0.2:
+            # empty lines before the first request line / status line of the connection are skipped (counted in *_ignored_lines); an empty line
+            # AFTER a message with a body is the listed finding F3 and is not generated here
+            rq = rng.choice([b"\r\n", b"\n", b"\r\n\r\n"]) + rq
+        if rng.random() < 0.1:
+            rs = rng.choice([b"\r\n", b"\n"]) + rs
         res.append((rq, rs, sconnp.cfg_str(p=rng.choice([0, 1, 2, 5, 6, 9]))))
     return res
 
@@ -111,7 +117,7 @@ def check(ctx):
     W = cp.witnesses()
     fixed_pairs = ["c03_res_fold_at_cut", "c03_pipelined_status_line_cut", "c06_msglen_empty_chunk_lines_a", "c06_msglen_empty_chunk_lines_b"]
     wit_cases = []
-    for nme in fixed_pairs + ["c03_F1_lfcr", "c03_ext_method_pipelined", "c03_F2_bare_cr_status_line"]:
+    for nme in fixed_pairs + ["c03_F1_lfcr", "c03_ext_method_pipelined", "c03_F2_bare_cr_status_line", "c03_F3_crlf_after_body"]:
         wit_cases += [W[nme + ".whole"], W[nme + ".split"]]
     allc = cases + wit_cases
     gmap = {c: g for c, g in zip(cases, group)}
@@ -159,6 +165,9 @@ def check(ctx):
     r = pair("c03_ext_method_pipelined")
     if r is not None and not r[0] and "ext-method-pipelined" in known:
         ctx.known.append("id=ext-method-pipelined witness still exhibits it: %s" % known["ext-method-pipelined"]["what"][:170])
+    r = pair("c03_F3_crlf_after_body")
+    if r is not None and not r[0] and "F3-crlf-after-request-body" in known:
+        ctx.known.append("id=F3-crlf-after-request-body witness still exhibits it: %s" % known["F3-crlf-after-request-body"]["what"][:170])
     r = pair("c03_F2_bare_cr_status_line")
     if r is not None and not r[0] and "F2-bare-cr-in-status-line" in known:
         ctx.known.append("id=F2-bare-cr-in-status-line witness still exhibits it (malformed input, outside the well-formed domain): %s" % known["F2-bare-cr-in-status-line"]["what"][:170])
